@@ -27,6 +27,25 @@ func init() {
 		}
 		return obls
 	})
+	// C07 rests on Filter (C08 contracts), the result-set builders (C01 contracts) and on every lint
+	// execution being a function of (lint, object, configuration) that leaves nothing behind: the
+	// C05 obligations (write frame per lint, no ambient input, no iteration-order dependence, no
+	// package-level state), re-run here under C07's name
+	extraEngines["C07"] = append(extraEngines["C07"], func(w *World, r *Report) []*Obligation {
+		var out []*Obligation
+		engines := []func(w *World, r *Report) []*Obligation{
+			func(w *World, r *Report) []*Obligation { return schematic(w, r, "C05") },
+			censusAmbient, censusMapOrder, censusGlobalWrites,
+		}
+		for _, e := range engines {
+			for _, o := range e(w, r) {
+				o.Name = "C07/" + strings.TrimPrefix(o.Name, "C05/")
+				o.Prop = "C07"
+				out = append(out, o)
+			}
+		}
+		return out
+	})
 	extraEngines["C02"] = append(extraEngines["C02"], func(w *World, r *Report) []*Obligation { return schematic(w, r, "C02") })
 	extraEngines["C01"] = append(extraEngines["C01"], func(w *World, r *Report) []*Obligation { return schematic(w, r, "C01") })
 }
